@@ -1,79 +1,35 @@
 """C08 - simplify preserves meaning."""
-import copy
-
-from harness import grammar, render, tlc
-from harness.common import CANARY_BASE, Report, import_hpl, rng, split_canaries, tier
-from harness.drive import call_parser, exc_name
-from harness.project import project
-from harness.valuations import valuations
+from harness.common import Report, import_hpl, rng, tier
+from harness.rewrite_driver import Recorder, corrupt_first, family_texts, parse_inputs
 
 FAMILIES_QUICK = ['num1w', 'bool1w', 'funs', 'incl', 'quants', 'num2', 'bool2', 'cmp11']
 FAMILIES_THOROUGH = FAMILIES_QUICK + ['num22', 'bool22', 'alias']
 
 
-def inputs(thorough, rnd, rep):
-    fams = FAMILIES_THOROUGH if thorough else FAMILIES_QUICK
-    out = []
-    for fam in fams:
-        sents, r = grammar.enumerate_family(fam)
-        rep.add_tlc(r)
-        if not thorough and len(sents) > 2500:
-            sents = rnd.sample(sents, 2500)
-        rep.count('family_' + fam, len(sents))
-        for s in sents:
-            toks, _ = render.substitute(s, lits=grammar.STD_LITS)
-            out.append((fam, ' '.join(toks)))
-    return out
+def canary(events):
+    def ok(ev):
+        return ev['out'] == 'ok' and ev['in'].get('cls') == 'HplBinaryOperator' and ev['in'].get('operator') == '<' \
+            and ev['outs'][0].get('cls') == 'HplBinaryOperator' and ev['outs'][0].get('operator') == '<'
+
+    def mut(c):
+        c['outs'][0]['operator'] = '<='
+    return corrupt_first(events, ok, mut, 1)
 
 
 def run(replay=None):
     import_hpl()
-    from hpl.rewrite import simplify
     rep = Report('C08')
     thorough = tier() == 'thorough'
     rnd = rng('c08')
-    events, info = [], {}
-    eid = 0
-    for fam, text in inputs(thorough, rnd, rep):
-        for entry in (('expression', 'condition') if fam not in ('num2', 'num22', 'num1w') else ('expression',)):
-            o, obj = call_parser(entry, text)
-            if o != 'ast':
-                rep.skip('parser:' + o)
-                continue
-            if entry == 'condition' and rnd.random() > 0.3:
-                continue
-            pin = project(obj, ids=False)
-            try:
-                r = simplify(obj)
-                out, outs = 'ok', [project(r, ids=False)]
-            except Exception as e:  # noqa
-                out, outs = exc_name(e), []
-            eid += 1
-            events.append({'id': eid, 'op': 'simplify', 'in': pin, 'outs': outs, 'out': out,
-                           'rhos': valuations(pin, limit=64 if thorough else 32, rnd=rnd)})
-            info[eid] = (entry, text, out, str(r) if out == 'ok' else '')
-            rep.clause('out:' + out)
-    # canaries: x - 0 -> 0 style corruptions of a recorded output
-    canaries = []
-    for ev in events:
-        if ev['out'] == 'ok' and ev['in'].get('cls') == 'HplBinaryOperator' and ev['in'].get('operator') == '<' \
-                and ev['outs'][0].get('cls') == 'HplBinaryOperator' and ev['outs'][0].get('operator') == '<':
-            c = copy.deepcopy(ev); c['id'] = CANARY_BASE + 1
-            c['outs'][0]['operator'] = '<='
-            canaries.append(c)
-            break
-    res = tlc.validate_batch('T_C08', events + canaries, heap='3g')
-    rep.add_tlc(res)
-    rep.add_traces(res['consumed'] - len(canaries))
-    rep.cov['canaries_rejected'] = len(canaries)
-    rep.cov['valuations_judged'] = res['stats'].get('judged', 0)
-    for k in ('skipU', 'skipO', 'skipR'):
-        rep.skip(k, res['stats'].get(k, 0))
-    rep.skip('NoJudgedValuation', len(res['skip']))
-    for i, clause in split_canaries(res, [c['id'] for c in canaries]):
-        entry, text, out, rtxt = info[i]
-        rep.violation('%s|%s' % (clause, text), 'simplify(%r) -> %s violates %s' % (text, rtxt or out, clause),
-                      {'text': text, 'entry': entry, 'clause': clause, 'result': rtxt, 'outcome': out})
-    for e in events[:: max(1, len(events) // 8)]:
-        rep.sample({'input': info[e['id']][1], 'output': info[e['id']][3] or info[e['id']][2], 'valuations': len(e['rhos'])})
+    rec = Recorder(rep, rnd, 64 if thorough else 32)
+    texts = family_texts(FAMILIES_THOROUGH if thorough else FAMILIES_QUICK, rep, rnd, cap=None if thorough else 2500)
+    for fam, text, entry, obj in parse_inputs(texts, ('expression', 'condition')):
+        if entry == 'condition' and rnd.random() > 0.3:
+            continue
+        rec.simplify(text, obj)
+    for i, clause in rec.validate(canary):
+        inf = rec.info[i]
+        rep.violation('%s|%s' % (clause, inf['text']), 'simplify(%r) -> %s violates %s' % (inf['text'], inf['result'] or inf['out'], clause), inf)
+    for e in rec.events[:: max(1, len(rec.events) // 8)]:
+        rep.sample({'input': rec.info[e['id']]['text'], 'output': rec.info[e['id']]['result'], 'valuations': len(e['rhos'])})
     return rep.finish()
